@@ -106,6 +106,7 @@ func analyse(prop, tier, repo string, cfg core.Config) (out childOut) {
 	ctx := core.NewCtx(prop, tier, p)
 	out.Ctx = ctx
 	rules.Registry[prop].Run(ctx)
+	rules.NoNewSharedState(ctx, rules.Registry[prop].Packages)
 	ctx.Finish()
 	return out
 }
